@@ -76,9 +76,7 @@ Proof.
   assert (Hf := fixed_bounds_kind go n T Tl t0l k).
   assert (Hm := minmax_kind go).
   destruct (go_spec go).
-  - destruct (fixed_bounds_T go n T Tl t0l k) as [|r0 rest] eqn:E; [destruct H|].
-    destruct H as [<-|H]; [apply Hf; left; reflexivity|].
-    apply in_app_or in H. destruct H as [H|H]; [|apply Hf; right; exact H].
+  - apply in_app_or in H. destruct H as [H|H]; [|apply Hf; exact H].
     in_cases; eapply Hm; eassumption.
   - apply in_app_or in H. destruct H as [H|H]; [|apply Hf; exact H].
     in_cases; eapply Hm; eassumption.
